@@ -332,21 +332,34 @@ class C20(Check):
             else:
                 self.violated("L3", ROUT, q, "apply-before-simulate", f, bad3 or "candidate values are not (all) applied to the model before it is simulated",
                               witness="the residual is evaluated at the previous candidate / the fitted initial value is overwritten by y0: the reported loss does not belong to the reported parameters")
-            m = [s for s in body if isinstance(s, ast.Match)]
-            if not m:
+            # what is returned for a failed / a successful simulation (plain summaries, match and isinstance alike)
+            p3 = [st for st, _ in SymInterp().run_function(f, Sym()).returns]
+            fails = [st for st in p3 if any(c.startswith("isinstance(") and c.endswith(".value, Simulation)") and not p_ for c, p_ in st.conds)]
+            succs = [st for st in p3 if any(c.startswith("isinstance(") and c.endswith(".value, Simulation)") and p_ for c, p_ in st.conds)]
+            if not fails or not succs:
                 self.undecided_ob("L3", ROUT, q, "failure-to-inf", f, "result dispatch not recognised")
                 continue
-            succ = [c for c in m[0].cases if isinstance(c.pattern, ast.MatchClass)]
-            fail = [c for c in m[0].cases if isinstance(c.pattern, ast.MatchAs) and c.pattern.pattern is None]
-            if fail and norm(fail[0].body[0]) in ("return cast(float, np.inf)", "return np.inf", "return float('inf')"):
-                self.holds("L3", ROUT, q, "failure-to-inf", fail[0].body[0], "failed simulation -> +inf")
+
+            def returned(st):
+                r_ = [e[1] for e in st.events if e[0] == "return"]
+                return r_[-1] if r_ else "None"
+
+            anchor_f = [r_ for r_ in ast.walk(f) if isinstance(r_, ast.Return) and r_.value is not None and "inf" in norm(r_.value)]
+            if all(returned(st) in ("np.inf", "float('inf')", "math.inf", "numpy.inf") for st in fails):
+                self.holds("L3", ROUT, q, "failure-to-inf", anchor_f[0] if anchor_f else f, "failed simulation -> +inf")
             else:
-                self.violated("L3", ROUT, q, "failure-to-inf", m[0], "a failed simulation is not mapped to +inf: the optimiser can prefer parameters at which the model does not run",
+                self.violated("L3", ROUT, q, "failure-to-inf", anchor_f[0] if anchor_f else f, "a failed simulation is not mapped to +inf: the optimiser can prefer parameters at which the model does not run",
                               witness="a candidate where integration fails gets a finite (or zero) residual")
-            if succ and norm(succ[0].body[0]).startswith("return settings.loss(val.get_combined().loc[:, cast(list, settings.data."):
-                self.holds("L3", ROUT, q, "loss-of-selected-columns", succ[0].body[0], "settings.loss(prediction restricted to the data's columns)")
+            ok_loss = True
+            for st in succs:
+                subj = [c[len("isinstance("):-len(", Simulation)")] for c, p_ in st.conds if c.startswith("isinstance(") and c.endswith(".value, Simulation)") and p_][-1]
+                if not returned(st).startswith(f"settings.loss({subj}.get_combined().loc[:, settings.data."):
+                    ok_loss = False
+            anchor_s = [r_ for r_ in ast.walk(f) if isinstance(r_, ast.Return) and r_.value is not None and "settings.loss(" in norm(r_.value)]
+            if ok_loss:
+                self.holds("L3", ROUT, q, "loss-of-selected-columns", anchor_s[0] if anchor_s else f, "settings.loss(prediction restricted to the data's columns)")
             else:
-                self.violated("L3", ROUT, q, "loss-of-selected-columns", m[0], "the residual is not settings.loss of the prediction restricted to the data columns")
+                self.violated("L3", ROUT, q, "loss-of-selected-columns", anchor_s[0] if anchor_s else f, "the residual is not settings.loss of the prediction restricted to the data columns")
 
     def l5(self) -> None:
         mod = self.prog.module(ROUT)
@@ -421,14 +434,14 @@ class C20(Check):
             Variant("variable-candidates-routed-by-parameter-names", ROUT, "time_course", "v_names=[i for i in p0 if i in v_names]", "v_names=[i for i in p0 if i in p_names]", expect="L5|", quick=True),
             Variant("ensemble-drops-loss", ROUT, "ensemble_time_course", "loss_fn=loss_fn", "loss_fn=losses.rmse", expect="L5|"),
             Variant("carousel-crosses-options", ROUT, "carousel_steady_state", "y0=y0", "y0=None", expect="L5|"),
-            Variant("y0-after-candidates", ROUT, "time_course_residual", "    if (y0 := settings.y0) is not None:\n        model.update_variables(y0)\n    for p in settings.p_names:\n        model.update_parameter(p, updates[p])\n    for p in settings.v_names:\n        model.update_variable(p, updates[p])\n",
-                    "    for p in settings.p_names:\n        model.update_parameter(p, updates[p])\n    for p in settings.v_names:\n        model.update_variable(p, updates[p])\n    if (y0 := settings.y0) is not None:\n        model.update_variables(y0)\n", expect="L3|", quick=True),
+            Variant("y0-after-candidates", ROUT, "time_course_residual", "    if (y0 := settings.y0) is not None:\n        settings.model.update_variables(y0)\n    for p in settings.p_names:\n        settings.model.update_parameter(p, updates[p])\n    for p in settings.v_names:\n        settings.model.update_variable(p, updates[p])\n",
+                    "    for p in settings.p_names:\n        settings.model.update_parameter(p, updates[p])\n    for p in settings.v_names:\n        settings.model.update_variable(p, updates[p])\n    if (y0 := settings.y0) is not None:\n        settings.model.update_variables(y0)\n", expect="L3|", quick=True),
             Variant("joint-ignores-flag", ROUT, "joint_steady_state", "model=deepcopy(i.model) if as_deepcopy else i.model", "model=i.model", expect="L2|"),
             Variant("carousel-forces-false", ROUT, "carousel_time_course", "as_deepcopy=as_deepcopy", "as_deepcopy=False", expect="L2|"),
             Variant("failure-to-zero", ROUT, "time_course_residual", "return cast(float, np.inf)", "return 0.0", expect="L3|", quick=True),
             Variant("simulate-before-update", ROUT, "steady_state_residual",
-                    "    for p in settings.v_names:\n        model.update_variable(p, updates[p])\n    res = Simulator(model, integrator=settings.integrator).simulate_to_steady_state().get_result()",
-                    "    res = Simulator(model, integrator=settings.integrator).simulate_to_steady_state().get_result()\n    for p in settings.v_names:\n        model.update_variable(p, updates[p])", expect="L3|"),
+                    "    for p in settings.v_names:\n        settings.model.update_variable(p, updates[p])\n    res = Simulator(settings.model, integrator=settings.integrator).simulate_to_steady_state().get_result()",
+                    "    res = Simulator(settings.model, integrator=settings.integrator).simulate_to_steady_state().get_result()\n    for p in settings.v_names:\n        settings.model.update_variable(p, updates[p])", expect="L3|"),
             Variant("scale-prediction-only-by-std", ABST, "_Settings.loss", "(prediction - self.mean) / self.scale", "prediction / self.scale", expect="L4|", quick=True),
         ]
 
